@@ -65,3 +65,11 @@ def TimeScale.totalDuration (ts : TimeScale α) : Option α :=
   match ts.repeat_ with
   | .infinite => none
   | r => some (ts.delay + ts.duration * lit (r.ordinal + 1))
+
+/-- a `(negative?, digits, decimal exponent)` constant of the generated tables -/
+def ofDecTriple (d : Bool × Nat × Nat) : α := if d.1 then -(dec d.2.1 d.2.2) else dec d.2.1 d.2.2
+
+/-- `impl Default for TimeScale` (from the generated table) -/
+def TimeScale.default : TimeScale α :=
+  ⟨ofDecTriple Gen.tsDefaultDelay, ofDecTriple Gen.tsDefaultDuration,
+   if Gen.tsDefaultRepeatInfinite then .infinite else .none, Gen.tsDefaultReverse⟩
